@@ -57,7 +57,7 @@ Proof.
   cbn [accepted accepted_states]. destruct (accepts s r) eqn:Hacc.
   - cbn [replay]. cbv zeta. rewrite (replay_step_activate mx live s r HI Hacc).
     rewrite (IH _ HI' Hrest). reflexivity.
-  - apply IH; assumption.
+  - rewrite (reject_unchanged mx s r Hacc). apply IH; assumption.
 Qed.
 
 Lemma replay_states : forall mx live reqs, wf_reqs mx reqs ->
